@@ -28,6 +28,7 @@ TRUSTED_BASE = [
     "Rust harness (container writer/reader driver, chunk-controlled BufRead)",
 ]
 ASSUMPTIONS = [
+    "files written through scheduled sinks (lib/cont.py scheduled_runs: partial writes, gathering / default write_vectored, interruptions): writing must succeed and the file must equal the accept-everything sink's (read back above) or read back on its own; the writer model runs under the same schedule for the null codec (C16_writer_schedule is the proved statement)",
     "proved (ContainerCodecProofs.v, model/ContainerCodec.v): WHOLE FILES with compressed blocks -- a file written by the writer model with any block codec function enc (any values, block layout, flushes, closing op, sink schedule) read by the compressed-file reader (cr_open, then per block count / size / BufReader(cap) over the decoder over Take / end check / sync marker) yields the written metadata, exactly the written values, then end of stream, for every decoder meeting the contract on the blocks the session cuts, every capacity >= 1, every read policy, from a slice and from ANY chunking of the source (C05_compressed_file_read_back); the snappy layout as an instance (C05_snappy_file_read_back); computed two-block examples incl. damaged variants (ToyExample)",
     "proved (DecodeLoopProofs.v, DecodeLoopDe.v): for every streaming decoder meeting stream_decoder_contract ((i) the output of a prefix is a prefix, no error and no early 0 on the complete stream, (iii) only a read returning 0 guarantees the stream was consumed to its end, (iv) bytes behind the end are not consumed), every BufReader capacity >= 1, every chunking of the source (slice or chunk plan) and every read policy of the deserializer: a block laid out as the writer does (complete stream of the encodings of the count values, sync marker) yields exactly the values, the end-of-block check passes -- also with zero-byte datums (decoder never read before the check) and lagging decoders -- and the source is left behind the marker (C05_compressed_block_read_back, with De.de as value decoder; _any_values for any value decoder); snappy blocks read back (C05_snappy_block_read_back); the check of commit 8463ea9^ is refuted on concrete runs (C05_end_check_before_fix_refuted). the contract is inhabited by a concrete lagging decoder (C05_decoder_contract_inhabited). NOT proved: that any REAL decoder meets the contract; the deserializer re-modelled over the BufReader (abstraction above); the per-call pretend_eof logic of deserialize_seed_next for compressed files (the whole-file reader of model/ContainerCodec.v works at block granularity)",
     "tested, not proved: that ccr_file is what the crate does on whole compressed files -- the extracted function run next to the crate on every compressed file of the run with the decoder replayed from the H4 trace (valid files: decode-side payloads x capacities {1,2,7,64,8192} x sources {slice, 1, 2, 7 bytes per fill_buf}, and a sample of the histories' files with real schemas under random capacities and chunk plans): same schema text, metadata, values, end of stream (coverage.notes whole_file_reader_model_vs_crate)",
@@ -190,9 +191,60 @@ def run(ctx):
         if not ok:
             violations.append({"impl_case": wline[:3000], "what": "read back (%s) differs from what was written: %s" % (mode, why),
                                "reader_case": line[:3000]})
-    notes = {"whole_file_reader_model_vs_crate(files of the histories)": wf["notes"]}
+    # ---- the same histories written through sinks that take the file in pieces (lib/cont.py scheduled_runs: k bytes per call, write_vectored
+    # gathering across block header / data / sync marker -- a short write may end strictly inside any of the three -- or std's default;
+    # 'interrupted' at call indexes of block flushes): writing succeeds and the file reads back (slice and chunked reader) as exactly
+    # the written values. A file equal to the accept-everything sink's was read back above; one that differs is read back on its own
+    from collections import Counter
+    sdist = Counter()
+    cand = []
+    for i, ((h, ops, expected, c, b), line, res) in enumerate(zip(hs, wl, wr)):
+        p = cont.parse_cw(res)
+        if i < n and p is not None and not p.get("build_err") and not any(r != "ok" for (k, *_), (r, l) in zip(ops, p["ops"]) if k != "fail"):
+            cand.append((i, p))
+    rng.shuffle(cand)
+    cand = cand[:(45 if ctx["tier"] == "quick" else 1000)]
+    fz = C.run_parallel(C.AVRODRIVE, ["freeze " + hs[i][0].schema for i, _ in cand])
+    scases = [{"h": hs[i][0], "ops": hs[i][1], "codec": hs[i][3], "bsz": hs[i][4], "meta": [], "start": None,
+               "json": C.unhex(C.parse_sx(r)[0][2]), "bp": p, "i": i} for (i, p), r in zip(cand, fz)]
+    sruns = cont.scheduled_runs(rng, scases, n_inject_bases=2, bad=False, singles=6, n_random=1)
+    sq = []
+    for r in sruns:
+        c = scases[r["ci"]]
+        pi = r["pi"]
+        sink_kind = "%s, %s write_vectored" % (r["tag"], "gathering" if r["vectored"] else "default")
+        sdist["written-through-scheduled-sink/" + ("gathering" if r["vectored"] else "default-write_vectored")] += 1
+        if pi is None or pi.get("build_err") or any(rr_ != "ok" for (k, *_), (rr_, l) in zip(c["ops"], pi["ops"]) if k != "fail"):
+            violations.append({"impl_case": r["line"][:3000], "what": "writing failed on a sink taking partial writes / reporting 'interrupted' (%s)" % sink_kind, "impl": r["res"][:300]})
+            continue
+        d = cont.model_vs_run(r)
+        if d:
+            diffs.append(d)
+        if pi["sink"] != c["bp"]["sink"]:
+            sq.append((r, c, sink_kind))
+    sq_lines = []
+    for r, c, sink_kind in sq:
+        for mode in ("slice", "(chunks %d)" % rng.choice([1, 3, 7, 64])):
+            sq_lines.append(("cr %s %s any %d" % (C.hx(r["pi"]["sink"]), mode, len(hs[c["i"]][2]) + 3), r, c, sink_kind, mode))
+    for (line, r, c, sink_kind, mode), res in zip(sq_lines, C.run_parallel(C.AVRODRIVE, [x[0] for x in sq_lines])):
+        h, ops, expected = hs[c["i"]][0], hs[c["i"]][1], hs[c["i"]][2]
+        f, f0 = r["pi"]["sink"], c["bp"]["sink"]
+        k0 = next((x for x in range(min(len(f), len(f0))) if f[x] != f0[x]), min(len(f), len(f0)))
+        how = "the file has %d bytes instead of the %d the accept-everything sink gets, first difference at offset %d" % (len(f), len(f0), k0)
+        pr = cont.parse_cr(res)
+        if pr.get("open_err") or "items" not in pr:
+            violations.append({"impl_case": r["line"][:3000], "what": "the file written through a sink taking partial writes (%s) cannot be opened (%s); %s" % (sink_kind, mode, how), "reader": res[:300]})
+            continue
+        ok, k, why = cont.values_prefix_then_eof(pr["items"], [h.spec[j]["dany"] for j in expected], True)
+        if not ok:
+            violations.append({"impl_case": r["line"][:3000], "what": "the file written through a sink taking partial writes (%s) does not read back (%s) as what was written: %s; %s" % (sink_kind, mode, why, how),
+                               "reader_case": line[:3000]})
+        else:
+            diffs.append({"impl_case": r["line"][:3000], "what": "the file written through %s differs from the accept-everything sink's (both read back); %s" % (sink_kind, how)})
+    n_sched = len(sruns) + sum(1 for r in sruns if r["rm"] is not None) + len(sq_lines)
+    notes = {"whole_file_reader_model_vs_crate(files of the histories)": wf["notes"], "scheduled_sinks": dict(sdist)}
     diffs.extend(wf["diffs"])
-    extra_eval = wf["evaluations"]
+    extra_eval = wf["evaluations"] + n_sched
     extra_distinct = set()
     for part in (codecloop.run_loops, codecloop.run_snappy, codecloop.run_oneshot, decodeloop.run_valid):
         try:
@@ -213,7 +265,10 @@ def run(ctx):
                     "approx_block_size in {0,1,2,17,64,4096,32768,65535,65536,2^20}, plus payloads that cross internal buffers (8189..70000 "
                     "incompressible/compressible bytes, zero-byte datums); directed: zero-byte values (null, record without fields, record of those) x every codec setting x "
                     "{pre-serialized pushes only (an empty byte string announcing 1..3 values), all values in one push, pushes mixed with serialize calls} x explicit flushes x "
-                    "closing by into_inner / drop / finish_block; every file read back from a slice and from chunked readers "
+                    "closing by into_inner / drop / finish_block; a sample of the histories also written through sinks that take the file in pieces (lib/cont.py scheduled_runs: "
+                    "k bytes per call for k in {1,2,3} and k chosen against the blocks' header / data lengths, write_vectored gathering across block header / data / sync marker (short writes ending "
+                    "strictly inside any of them) or std's default, irregular sizes, chopped file header, 'interrupted' at call indexes of block flushes): writing succeeds, file = the "
+                    "accept-everything sink's (= the writer model's under the same schedule, null codec), any file that differs read back on its own; every file read back from a slice and from chunked readers "
                     "(1 byte per fill_buf, small and irregular chunks): exactly the written values in order then end of stream; reader model vs crate (null codec); "
                     "encode loops (hook H3): codecs {deflate, bzip2, xz} x levels x START in {1,2,64,4096,32768} x inputs {empty, 1 byte, random / constant / text payloads "
                     "of START-1..START+1, 2*START-1..2*START+1, 4*START-1..4*START+1 bytes (text x3)} on a fresh codec state, plus sequences of blocks on one codec state "
